@@ -13,6 +13,8 @@ CLAIMS = {
              note='reals instead of doubles on symbolic data, tolerance scaled by the conditioning sum|w_i||x_i^m|; dims<=3, depth<=6; listed alpha/beta; one affine transform; hand-written moment oracle; exotic and custom-tabulated rules excluded', tech=B),
  'C04': dict(engine='fpsym', text='all routes run in one symbolic execution of the real code (values, coefficients and optionally the evaluation point symbolic); the difference of two routes is a polynomial residual that z3 bounds for all inputs of each path class (cells of local bases are classes)',
              note='reals instead of doubles on symbolic data; dims<=3, depth<=3; five history classes; symbolic x limited to <=40 cells per configuration; Wavelet: coefficient overwrite symbolic, model values concrete; support clause at concrete probe points (all-point version is engine K)', tech=B),
+ 'C09': dict(engine='fpsym', text='the real loadConstructedPoints is driven with the arrival order and batch cuts of the whole target set derived from symbolic priorities/flags and with symbolic values; z3 enumerates permutation x partition classes and decides value identity and equality with the one-batch surrogate for all values in each class',
+             note='reals instead of doubles; targets are full grids with <= 21 points; classes complete only where evidence says so, else budgeted; Wavelet with concrete values; one open known finding (Global/Fourier out-of-order tensors)', tech=B),
  'C15': dict(engine='fpsym', text='bounded symbolic execution of the real SampleDREAM template with symbolic random stream over the closed [0,1], weights, pdf values and domain verdicts; z3 enumerates index-conversion / Metropolis / verdict classes (endpoint draws are constructed), ASan observes memory faults on each class representative, book-keeping identities are decided per class',
              note='reals instead of doubles on symbolic data, log/cos/sqrt uninterpreted; chains<=3, dims<=2, <=3 iterations; budgeted classes (complete only where evidence says so); acceptance draws assumed consumed in chain order after the batch evaluation', tech=B),
  'C19': dict(engine='fpsym', text='bounded symbolic execution of the real GradientDescent code with an SMT solver deciding every obligation for all callback values of each path class; classes enumerated by the solver up to a coverage certificate or the class budget',
